@@ -88,6 +88,7 @@ type Interp struct {
 	fnInfos map[*ssa.Function]*fnInfo
 	astTypes map[reflect.Type]*types.Struct
 	l1 *l1Prog
+	curFn *ssa.Function
 	posOverride map[*token.FileSet]posAnswer
 	matchers map[*ahocorasick.Matcher][]string
 }
@@ -97,6 +98,9 @@ func (in *Interp) fail(format string, args ...interface{}) {
 }
 
 func (in *Interp) newCell(v Value, tag string) *Cell {
+	if tag == "" && in.inInit {
+		tag = "global-heap (allocated by a package initialiser)"
+	}
 	in.cellSeq++
 	return &Cell{id: in.cellSeq, val: v, tag: tag}
 }
@@ -237,6 +241,9 @@ func (in *Interp) callFunction(fn *ssa.Function, args []Value, env []Value) Valu
 	if !in.funcsSeen[fn] {
 		in.funcsSeen[fn] = true
 	}
+	prevFn := in.curFn
+	in.curFn = fn
+	defer func() { in.curFn = prevFn }()
 	fr := &frame{fn: fn, env: env, locals: make(map[ssa.Value]Value, 16), visits: map[int]int{}}
 	for i, p := range fn.Params {
 		fr.locals[p] = args[i]
@@ -566,8 +573,12 @@ func (in *Interp) store(p *Ptr, v Value) {
 	if p.host != nil {
 		in.fail("store into host memory")
 	}
-	if p.cell.tag != "" && strings.HasPrefix(p.cell.tag, "global ") && in.inOnce == 0 && !in.inInit {
-		in.globalWrites = append(in.globalWrites, p.cell.tag)
+	if p.cell.tag != "" && strings.HasPrefix(p.cell.tag, "global") && in.inOnce == 0 && !in.inInit {
+		w := "?"
+		if in.curFn != nil {
+			w = in.curFn.String()
+		}
+		in.globalWrites = append(in.globalWrites, p.cell.tag+" written by "+w)
 	}
 	v = deepCopy(v)
 	if len(p.path) == 0 {
